@@ -207,9 +207,12 @@ func (goh *GoatOverHttp) retrieve(id string) (*httpReadWriter, bool) {
 			writeAddr: id,
 			readCh:    make(chan *Rpc),
 			done:      make(chan struct{}),
-			cancel:    func() { goh.unregister(id) },
 			clock:     goh.clock,
 		}
+		// Only this connection: by the time one of its writes fails, a newer
+		// connection may be registered under the same address.
+		c := conn
+		conn.cancel = func() { goh.unregisterConn(c) }
 		conn.bumpActivity()
 
 		goh.conns.value[id] = conn
@@ -218,11 +221,15 @@ func (goh *GoatOverHttp) retrieve(id string) (*httpReadWriter, bool) {
 	return conn, !ok
 }
 
-func (goh *GoatOverHttp) unregister(id string) {
+// unregisterConn removes conn if it is still the connection registered for
+// its address (it may have been reaped, or replaced, already).
+func (goh *GoatOverHttp) unregisterConn(conn *httpReadWriter) {
 	goh.conns.Lock()
 	defer goh.conns.Unlock()
 
-	goh.unregisterLocked(id)
+	if goh.conns.value[conn.writeAddr] == conn {
+		goh.unregisterLocked(conn.writeAddr)
+	}
 }
 
 func (goh *GoatOverHttp) unregisterLocked(id string) {
